@@ -528,7 +528,7 @@ func (c *Check) cleanRules(rule string) {
 			_, ok = stripConv(k13).Match("(slice $K #1 _)")
 			ok = ok && c.P.scansFamily(k13, "0x13")
 		}
-		c.req(ok, rule, unitConstruct(clean, "per-key"), pa.RetPos, "each iteration deletes the request and the response stored under the scanned request key's id")
+		c.req(ok, rule, unitConstruct(clean, "per-key"), pa.RetPos, "each iteration deletes the request and the response stored under the scanned request key's id"+condStr(!ok, ": request key "+shortTerm(k13)+", response key "+shortTerm(k16)))
 	}
 	c.req(n >= 1, rule, unitConstruct(clean, "iterations"), clean.Body.Pos(), fmt.Sprintf("%d iterating paths", n))
 }
